@@ -495,11 +495,11 @@ Definition conv_typed (o : ops) (name : bytes) (elems : list ast) : option (cold
   else typed_value o elems.
 
 Lemma typed_cols_step_arr o s elems r expected acc res :
-  typed_cols o ((MStr s, MArr elems) :: r) expected acc = Some res ->
+  typed_cols o ((MStr s, MArr elems) :: r) expected acc = TOk res ->
   let n := Z.of_nat (List.length elems) in
   0 < n /\ n <= max_typed_elems /\ (forall e, expected = Some e -> n = e) /\
   lookupb s acc = None /\
-  exists c, conv_typed o s elems = Some c /\ typed_cols o r (Some n) (acc ++ [(s, c)]) = Some res.
+  exists c, conv_typed o s elems = Some c /\ typed_cols o r (Some n) (acc ++ [(s, c)]) = TOk res.
 Proof.
   cbn [typed_cols]. fold (conv_typed o s elems).
   destruct (_ || _) eqn:E1; [discriminate|].
@@ -512,27 +512,37 @@ Proof.
   - exists c. auto.
 Qed.
 
+(* a non-array value: no array was decoded for that key before, and the value is decodable *)
+Lemma typed_cols_step_non o s v r expected acc res :
+  is_arr v = false ->
+  typed_cols o ((MStr s, v) :: r) expected acc = TOk res ->
+  lookupb s acc = None /\ lib_ok o v = true /\ typed_cols o r expected acc = TOk res.
+Proof.
+  intros Hv H.
+  assert (H' : match lookupb s acc with
+               | Some _ => TBail
+               | None => discard o v (typed_cols o r expected acc)
+               end = TOk res) by (destruct v; try discriminate; exact H).
+  clear H. destruct (lookupb s acc); [discriminate|]. unfold discard, lib_ok in *.
+  destruct (lib_decode o v); try discriminate. auto.
+Qed.
+
+Lemma is_arr_inv v : is_arr v = true -> exists l, v = MArr l.
+Proof. destruct v; try discriminate. eauto. Qed.
+
 Lemma typed_cols_str_keys o entries : forall expected acc res,
-  typed_cols o entries expected acc = Some res -> str_keys entries = true.
+  typed_cols o entries expected acc = TOk res -> str_keys entries = true.
 Proof.
   induction entries as [|[k v] r IH]; intros expected acc res H; [reflexivity|].
   destruct k; try discriminate. cbn [str_keys forallb fst is_str_code andb].
-  destruct v; try (cbn [typed_cols] in H; eapply IH; exact H).
-  destruct (typed_cols_step_arr _ _ _ _ _ _ _ H) as (_ & _ & _ & _ & c & _ & H'). eapply IH; exact H'.
+  destruct (is_arr v) eqn:Ea.
+  - destruct (is_arr_inv _ Ea) as [l ->].
+    destruct (typed_cols_step_arr _ _ _ _ _ _ _ H) as (_ & _ & _ & _ & c & _ & H'). eapply IH; exact H'.
+  - destruct (typed_cols_step_non _ _ _ _ _ _ _ Ea H) as (_ & _ & H'). eapply IH; exact H'.
 Qed.
 
-Lemma memb_false_notin k seen : memb k seen = false -> forall x, In x seen -> x <> k.
-Proof.
-  unfold memb. induction seen as [|y r IH]; cbn; [tauto|].
-  intros H x [->|Hin]; apply orb_false_elim in H as [H1 H2].
-  - intros ->. now rewrite bytes_eqb_refl in H1.
-  - now apply IH.
-Qed.
-
-Lemma typed_cols_lookup o entries : forall expected acc exp' cols' seen,
-  typed_cols o entries expected acc = Some (exp', cols') ->
-  cols_dup_later_nonarray seen entries = false ->
-  (forall name, memb name seen = false -> lookupb name acc = None) ->
+Lemma typed_cols_lookup o entries : forall expected acc exp' cols',
+  typed_cols o entries expected acc = TOk (exp', cols') ->
   forall name,
     lookupb name cols' =
     match last_val name entries with
@@ -541,43 +551,27 @@ Lemma typed_cols_lookup o entries : forall expected acc exp' cols' seen,
     | None => lookupb name acc
     end.
 Proof.
-  induction entries as [|[k v] r IH]; intros expected acc exp' cols' seen H Hg Hacc name.
+  induction entries as [|[k v] r IH]; intros expected acc exp' cols' H name.
   - cbn in H. injection H as <- <-. reflexivity.
   - destruct k; try discriminate. cbn [last_val].
-    assert (Hnon : is_arr v = false ->
-                   typed_cols o r expected acc = Some (exp', cols') ->
-                   memb s seen = false -> cols_dup_later_nonarray seen r = false ->
-                   lookupb name cols' =
-                   match match last_val name r with
-                         | Some v' => Some v'
-                         | None => if bytes_eqb name s then Some v else None
-                         end with
-                   | Some (MArr elems) => conv_typed o name elems
-                   | Some _ => None
-                   | None => lookupb name acc
-                   end).
-    { intros Hv H' Hm Hg'. rewrite (IH _ _ _ _ _ H' Hg' Hacc name).
+    destruct (is_arr v) eqn:Ea.
+    + destruct (is_arr_inv _ Ea) as [l ->].
+      destruct (typed_cols_step_arr _ _ _ _ _ _ _ H) as (_ & _ & _ & Hs & c & Hc & H').
+      rewrite (IH _ _ _ _ H' name).
+      destruct (last_val name r); [reflexivity|].
+      rewrite lk_app. destruct (bytes_eqb_spec name s) as [->|Hne].
+      * rewrite Hs. cbn. unfold lookupb; cbn. rewrite bytes_eqb_refl. now rewrite Hc.
+      * destruct (lookupb name acc); [reflexivity|]. unfold lookupb; cbn. now rewrite (bytes_eqb_neq _ _ Hne).
+    + destruct (typed_cols_step_non _ _ _ _ _ _ _ Ea H) as (Hs & _ & H').
+      rewrite (IH _ _ _ _ H' name).
       destruct (last_val name r); [reflexivity|].
       destruct (bytes_eqb_spec name s) as [->|]; [|reflexivity].
-      rewrite (Hacc _ Hm). destruct v; try reflexivity; discriminate. }
-    destruct v;
-      try (cbn [typed_cols] in H; cbn [cols_dup_later_nonarray] in Hg;
-           apply orb_false_elim in Hg as [Hm Hg]; now apply Hnon).
-    clear Hnon. cbn [cols_dup_later_nonarray] in Hg.
-    destruct (typed_cols_step_arr _ _ _ _ _ _ _ H) as (_ & _ & _ & Hs & c & Hc & H').
-    assert (Hacc' : forall nm, memb nm (s :: seen) = false -> lookupb nm (acc ++ [(s, c)]) = None).
-    { intros nm Hm. cbn [memb existsb] in Hm. apply orb_false_elim in Hm as [Hm1 Hm2].
-      rewrite lk_app, (Hacc _ Hm2). cbn. unfold lookupb. cbn. now rewrite Hm1. }
-    rewrite (IH _ _ _ _ _ H' Hg Hacc' name).
-    destruct (last_val name r); [reflexivity|].
-    rewrite lk_app. destruct (bytes_eqb_spec name s) as [->|Hne].
-    + rewrite Hs. cbn. unfold lookupb; cbn. rewrite bytes_eqb_refl. now rewrite Hc.
-    + destruct (lookupb name acc); [reflexivity|]. unfold lookupb; cbn. now rewrite (bytes_eqb_neq _ _ Hne).
+      rewrite Hs. destruct v; try reflexivity; discriminate.
 Qed.
 
 (* every array entry was decoded: same length, scalars only *)
 Lemma typed_cols_arrays o entries : forall expected acc exp' cols',
-  typed_cols o entries expected acc = Some (exp', cols') ->
+  typed_cols o entries expected acc = TOk (exp', cols') ->
   (forall e, expected = Some e -> exp' = Some e) /\
   forall name elems, In (MStr name, MArr elems) entries ->
     exp' = Some (Z.of_nat (List.length elems)) /\ 0 < Z.of_nat (List.length elems) /\
@@ -586,15 +580,17 @@ Proof.
   induction entries as [|[k v] r IH]; intros expected acc exp' cols' H.
   - cbn in H. injection H as <- <-. split; [auto|]. intros ? ? [].
   - destruct k; try discriminate.
-    destruct v;
-      try (cbn [typed_cols] in H; destruct (IH _ _ _ _ H) as [He Ha]; split; [exact He|];
-           intros name elems [Hin|Hin]; [discriminate|now apply Ha]).
-    destruct (typed_cols_step_arr _ _ _ _ _ _ _ H) as (Hpos & _ & Hexp & _ & c & Hc & H').
-    destruct (IH _ _ _ _ H') as [He Ha]. split.
-    + intros e ->. rewrite (He _ eq_refl). f_equal. now apply Hexp.
-    + intros name elems [Hin|Hin].
-      * injection Hin as <- <-. split; [now apply He|]. split; [exact Hpos|]. congruence.
-      * now apply Ha.
+    destruct (is_arr v) eqn:Ea.
+    + destruct (is_arr_inv _ Ea) as [l ->].
+      destruct (typed_cols_step_arr _ _ _ _ _ _ _ H) as (Hpos & _ & Hexp & _ & c & Hc & H').
+      destruct (IH _ _ _ _ H') as [He Ha]. split.
+      * intros e ->. rewrite (He _ eq_refl). f_equal. now apply Hexp.
+      * intros name elems [Hin|Hin].
+        -- injection Hin as <- <-. split; [now apply He|]. split; [exact Hpos|]. congruence.
+        -- now apply Ha.
+    + destruct (typed_cols_step_non _ _ _ _ _ _ _ Ea H) as (_ & _ & H').
+      destruct (IH _ _ _ _ H') as [He Ha]. split; [exact He|].
+      intros name elems [Hin|Hin]; [|now apply Ha]. injection Hin as _ ->. discriminate.
 Qed.
 
 Lemma last_val_in key entries v :
@@ -605,25 +601,6 @@ Proof.
   destruct (last_val key r) eqn:E.
   - intros [= <-]. right. now apply IH.
   - destruct (bytes_eqb_spec key s) as [->|]; [|discriminate]. intros [= <-]. now left.
-Qed.
-
-Lemma typed_cols_nonempty o entries : forall expected acc exp' cols',
-  typed_cols o entries expected acc = Some (exp', cols') ->
-  forall name c, lookupb name cols' = Some c ->
-  lookupb name acc = Some c \/ exists elems, In (MStr name, MArr elems) entries.
-Proof.
-  induction entries as [|[k v] r IH]; intros expected acc exp' cols' H name c Hl.
-  - cbn in H. injection H as <- <-. now left.
-  - destruct k; try discriminate.
-    destruct v;
-      try (cbn [typed_cols] in H; destruct (IH _ _ _ _ H _ _ Hl) as [Ha|[el Hin]];
-           [now left|right; exists el; now right]).
-    destruct (typed_cols_step_arr _ _ _ _ _ _ _ H) as (_ & _ & _ & Hs & c0 & Hc & H').
-    destruct (IH _ _ _ _ H' _ _ Hl) as [Ha|[el Hin]].
-    + rewrite lk_app in Ha. destruct (lookupb name acc) eqn:E; [now left|].
-      right. exists l. left. unfold lookupb in Ha; cbn in Ha.
-      destruct (bytes_eqb_spec name s) as [->|]; [reflexivity|discriminate].
-    + right. exists el. now right.
 Qed.
 
 (* ------------------------------------------------------------------------------------ *)
@@ -877,7 +854,7 @@ Section Columnar.
 End Columnar.
 
 (* ------------------------------------------------------------------------------------ *)
-(* the columns map: typed success + guard => the generic decode sees the same columns     *)
+(* the columns map: typed success => the generic decode sees the same columns              *)
 
 Lemma conv_typed_scalar o name elems c :
   conv_typed o name elems = Some c -> forallb scalar elems = true.
@@ -893,29 +870,25 @@ Lemma lib_decode_scalar_arr o elems :
 Proof. intros H. now rewrite lib_decode_arr, (lib_decode_list_scalars o elems H). Qed.
 
 Lemma cols_values_ok o entries : forall expected acc res,
-  typed_cols o entries expected acc = Some res ->
-  cols_skip_undecodable o entries = false ->
+  typed_cols o entries expected acc = TOk res ->
   forallb (fun kv => lib_ok o (snd kv)) entries = true.
 Proof.
-  induction entries as [|[k v] r IH]; intros expected acc res H Hg; [reflexivity|].
+  induction entries as [|[k v] r IH]; intros expected acc res H; [reflexivity|].
   destruct k; try discriminate. cbn [forallb snd].
-  destruct v;
-    try (cbn [typed_cols] in H; cbn [cols_skip_undecodable] in Hg;
-         apply orb_false_elim in Hg as [Hv Hg]; apply negb_false_iff in Hv; rewrite Hv;
-         cbn [andb]; eapply IH; eassumption).
-  cbn [cols_skip_undecodable] in Hg.
-  destruct (typed_cols_step_arr _ _ _ _ _ _ _ H) as (_ & _ & _ & _ & c & Hc & H').
-  unfold lib_ok at 1. rewrite (lib_decode_scalar_arr o l (conv_typed_scalar _ _ _ _ Hc)).
-  cbn [andb]. eapply IH; eassumption.
+  destruct (is_arr v) eqn:Ea.
+  - destruct (is_arr_inv _ Ea) as [l ->].
+    destruct (typed_cols_step_arr _ _ _ _ _ _ _ H) as (_ & _ & _ & _ & c & Hc & H').
+    unfold lib_ok at 1. rewrite (lib_decode_scalar_arr o l (conv_typed_scalar _ _ _ _ Hc)).
+    cbn [andb]. eapply IH; eassumption.
+  - destruct (typed_cols_step_non _ _ _ _ _ _ _ Ea H) as (_ & Hv & H'). rewrite Hv.
+    cbn [andb]. eapply IH; eassumption.
 Qed.
 
 Definition src_of (centries : list (ast * ast)) (name : bytes) : option (list ast) :=
   match last_val name centries with Some (MArr e) => Some e | _ => None end.
 
 Lemma cols_bridge o centries nz tcols :
-  typed_cols o centries None [] = Some (Some nz, tcols) ->
-  cols_dup_later_nonarray [] centries = false ->
-  cols_skip_undecodable o centries = false ->
+  typed_cols o centries None [] = TOk (Some nz, tcols) ->
   tcols <> [] ->
   exists cm,
     lib_decode o (MMap centries) = LOk (GMap cm) /\ NoDup (keys cm) /\
@@ -927,13 +900,13 @@ Lemma cols_bridge o centries nz tcols :
       | None => lookupb name (keep_arrays cm) = None /\ lookupb name tcols = None
       end.
 Proof.
-  intros H Hdup Hskip Hne.
+  intros H Hne.
   pose proof (typed_cols_str_keys _ _ _ _ _ H) as Hs.
-  pose proof (cols_values_ok _ _ _ _ _ H Hskip) as Hok.
+  pose proof (cols_values_ok _ _ _ _ _ H) as Hok.
   destruct (smap_ok o centries [] Hs Hok) as [cm Hcm].
   pose proof (smap_nodup _ _ _ _ Hcm (NoDup_nil _)) as Hnd.
   pose proof (smap_lookup _ _ _ _ Hs Hcm) as Hlk.
-  pose proof (typed_cols_lookup _ _ _ _ _ _ [] H Hdup (fun _ _ => eq_refl)) as Htl.
+  pose proof (typed_cols_lookup _ _ _ _ _ _ H) as Htl.
   destruct (typed_cols_arrays _ _ _ _ _ _ H) as [_ Harr].
   exists cm. split; [|split; [exact Hnd|]].
   - destruct centries as [|[k0 v0] r0].
@@ -981,7 +954,7 @@ Proof.
 Qed.
 
 Lemma typed_top_spec o entries : forall st st',
-  typed_top o entries st = Some st' ->
+  typed_top o entries st = TOk st' ->
   str_keys entries = true /\
   last_val k_batch entries = None /\
   match last_val k_m entries with
@@ -989,11 +962,12 @@ Lemma typed_top_spec o entries : forall st st',
   | None => ts_m st' = ts_m st
   end /\
   match last_val k_columns entries with
-  | Some vc => ts_cols st = None /\ typed_columns o vc = ts_cols st' /\ ts_cols st' <> None
+  | Some vc => ts_cols st = None /\ exists c, typed_columns o vc = TOk c /\ ts_cols st' = Some c
   | None => ts_cols st' = ts_cols st
   end /\
   (forall v, In (MStr k_m, v) entries -> typed_measurement v <> None) /\
-  (forall v, In (MStr k_columns, v) entries -> last_val k_columns entries = Some v).
+  (forall v, In (MStr k_columns, v) entries -> last_val k_columns entries = Some v) /\
+  (forall key v, In (MStr key, v) entries -> is_known_key key = false -> lib_ok o v = true).
 Proof.
   induction entries as [|[k v] r IH]; intros st st' H.
   - cbn in H. injection H as <-. cbn. repeat split; tauto.
@@ -1003,36 +977,41 @@ Proof.
     + apply bytes_eqb_eq in Em. subst s.
       destruct (ts_m st) eqn:Esm; [discriminate|].
       destruct (typed_measurement v) as [m0|] eqn:Etm; [|discriminate].
-      destruct (IH _ _ H) as (Hs & Hb & Hm & Hc & Hin1 & Hin2). cbn [ts_m ts_cols] in *.
+      destruct (IH _ _ H) as (Hs & Hb & Hm & Hc & Hin1 & Hin2 & Hin3). cbn [ts_m ts_cols] in *.
       split; [exact Hs|]. split; [rewrite last_val_cons_other; [exact Hb|reflexivity]|].
-      split; [|split; [|split]].
+      split; [|split; [|split; [|split]]].
       * rewrite last_val_cons_same. destruct (last_val k_m r).
         -- destruct Hm as [Hm _]. discriminate.
         -- rewrite Hm. split; [reflexivity|]. split; [exact Etm|discriminate].
       * rewrite last_val_cons_other by reflexivity. exact Hc.
       * intros v' [Hin|Hin]; [injection Hin as <-; congruence|now apply Hin1].
       * intros v' [Hin|Hin]; [discriminate|]. rewrite last_val_cons_other by reflexivity. now apply Hin2.
+      * intros key v' [Hin|Hin] Hk; [injection Hin as <- _; discriminate|eapply Hin3; eassumption].
     + destruct (bytes_eqb s k_columns) eqn:Ec.
       * apply bytes_eqb_eq in Ec. subst s.
         destruct (ts_cols st) eqn:Esc; [discriminate|].
-        destruct (typed_columns o v) as [c0|] eqn:Etc; [|discriminate].
-        destruct (IH _ _ H) as (Hs & Hb & Hm & Hc & Hin1 & Hin2). cbn [ts_m ts_cols] in *.
+        destruct (typed_columns o v) as [c0| |] eqn:Etc; try discriminate.
+        destruct (IH _ _ H) as (Hs & Hb & Hm & Hc & Hin1 & Hin2 & Hin3). cbn [ts_m ts_cols] in *.
         split; [exact Hs|]. split; [rewrite last_val_cons_other; [exact Hb|reflexivity]|].
         assert (Hnone : last_val k_columns r = None).
         { destruct (last_val k_columns r); [|reflexivity]. destruct Hc as [Hc _]. discriminate. }
-        split; [|split; [|split]].
+        split; [|split; [|split; [|split]]].
         -- rewrite last_val_cons_other by reflexivity. exact Hm.
-        -- rewrite last_val_cons_same, Hnone. rewrite Hnone in Hc. rewrite Hc.
-           split; [reflexivity|]. split; [exact Etc|discriminate].
+        -- rewrite last_val_cons_same, Hnone. rewrite Hnone in Hc.
+           split; [reflexivity|]. exists c0. split; [exact Etc|exact Hc].
         -- intros v' [Hin|Hin]; [discriminate|now apply Hin1].
         -- intros v' [Hin|Hin].
            ++ injection Hin as <-. now rewrite last_val_cons_same, Hnone.
            ++ exfalso. eapply last_val_none_notin; eassumption.
-      * destruct (IH _ _ H) as (Hs & Hb & Hm & Hc & Hin1 & Hin2).
+        -- intros key v' [Hin|Hin] Hk; [injection Hin as <- _; discriminate|eapply Hin3; eassumption].
+      * unfold discard in H. destruct (lib_decode o v) as [gv| |] eqn:Ev; try discriminate.
+        destruct (IH _ _ H) as (Hs & Hb & Hm & Hc & Hin1 & Hin2 & Hin3).
         split; [exact Hs|]. rewrite !last_val_cons_other by assumption.
         repeat split; try assumption.
         -- intros v' [Hin|Hin]; [injection Hin as -> _; now rewrite bytes_eqb_refl in Em|now apply Hin1].
         -- intros v' [Hin|Hin]; [injection Hin as -> _; now rewrite bytes_eqb_refl in Ec|now apply Hin2].
+        -- intros key v' [Hin|Hin] Hk; [|eapply Hin3; eassumption].
+           injection Hin as <- <-. unfold lib_ok. now rewrite Ev.
 Qed.
 
 Lemma typed_measurement_generic o v m :
@@ -1075,78 +1054,75 @@ Proof.
 Qed.
 
 Lemma typed_cols_acc_mono o entries : forall expected acc exp' cols' name c,
-  typed_cols o entries expected acc = Some (exp', cols') ->
+  typed_cols o entries expected acc = TOk (exp', cols') ->
   lookupb name acc = Some c -> lookupb name cols' = Some c.
 Proof.
   induction entries as [|[k v] r IH]; intros expected acc exp' cols' name c H Hl.
   - cbn in H. now injection H as <- <-.
   - destruct k; try discriminate.
-    destruct v; try (cbn [typed_cols] in H; eapply IH; eassumption).
-    destruct (typed_cols_step_arr _ _ _ _ _ _ _ H) as (_ & _ & _ & _ & c0 & _ & H').
-    eapply IH; [exact H'|]. now rewrite lk_app, Hl.
+    destruct (is_arr v) eqn:Ea.
+    + destruct (is_arr_inv _ Ea) as [l ->].
+      destruct (typed_cols_step_arr _ _ _ _ _ _ _ H) as (_ & _ & _ & _ & c0 & _ & H').
+      eapply IH; [exact H'|]. now rewrite lk_app, Hl.
+    + destruct (typed_cols_step_non _ _ _ _ _ _ _ Ea H) as (_ & _ & H'). eapply IH; eassumption.
 Qed.
 
 Lemma typed_cols_has o entries : forall expected acc exp' cols' name elems,
-  typed_cols o entries expected acc = Some (exp', cols') ->
+  typed_cols o entries expected acc = TOk (exp', cols') ->
   In (MStr name, MArr elems) entries -> lookupb name cols' <> None.
 Proof.
   induction entries as [|[k v] r IH]; intros expected acc exp' cols' name elems H Hin; [destruct Hin|].
   destruct k; try discriminate.
-  destruct v; try (cbn [typed_cols] in H; destruct Hin as [Hin|Hin]; [discriminate|eapply IH; eassumption]).
-  destruct (typed_cols_step_arr _ _ _ _ _ _ _ H) as (_ & _ & _ & Hs & c0 & _ & H').
-  destruct Hin as [Hin|Hin]; [|eapply IH; eassumption].
-  injection Hin as <- <-.
-  erewrite typed_cols_acc_mono; [discriminate|exact H'|].
-  rewrite lk_app, Hs. unfold lookupb. cbn. now rewrite bytes_eqb_refl.
+  destruct (is_arr v) eqn:Ea.
+  - destruct (is_arr_inv _ Ea) as [l ->].
+    destruct (typed_cols_step_arr _ _ _ _ _ _ _ H) as (_ & _ & _ & Hs & c0 & _ & H').
+    destruct Hin as [Hin|Hin]; [|eapply IH; eassumption].
+    injection Hin as <- <-.
+    erewrite typed_cols_acc_mono; [discriminate|exact H'|].
+    rewrite lk_app, Hs. unfold lookupb. cbn. now rewrite bytes_eqb_refl.
+  - destruct (typed_cols_step_non _ _ _ _ _ _ _ Ea H) as (_ & _ & H').
+    destruct Hin as [Hin|Hin]; [injection Hin as _ ->; discriminate|eapply IH; eassumption].
 Qed.
 
-Lemma existsb_false_in {A} (f : A -> bool) l x : existsb f l = false -> In x l -> f x = false.
-Proof.
-  intros H Hin. destruct (f x) eqn:E; [|reflexivity].
-  assert (existsb f l = true) by (apply existsb_exists; eauto). congruence.
-Qed.
-
-Theorem equiv_guarded o now_t now_g a m b :
-  typed o now_t a = Some (m, b) -> guard o a = true ->
+Theorem equiv o now_t now_g a m b :
+  typed o now_t a = TOk (m, b) ->
   exists b', generic o now_g a = OOk [ICol m (Some b')] /\ same_batch (payload_has_time a) b b'.
 Proof.
-  intros Ht Hg. unfold guard in Hg. apply andb_prop in Hg as [Hgd Hgs].
-  apply negb_true_iff in Hgd. apply negb_true_iff in Hgs.
+  intros Ht.
   destruct a as [| | | | | | | |entries|]; try discriminate.
   destruct entries as [|e0 erest] eqn:Ee; [discriminate|]. rewrite <- Ee in *.
   assert (Ht' : match typed_top o entries {| ts_m := None; ts_cols := None |} with
-                | Some {| ts_m := Some m0; ts_cols := Some (n, cols) |} =>
-                    Some (m0, {| b_n := n; b_cols := add_time now_t n cols |})
-                | _ => None
-                end = Some (m, b)) by (rewrite Ee in *; exact Ht).
-  clear Ht. destruct (typed_top o entries _) as [[sm sc]|] eqn:Etop; [|discriminate].
+                | TOk {| ts_m := Some m0; ts_cols := Some (n, cols) |} =>
+                    TOk (m0, {| b_n := n; b_cols := add_time now_t n cols |})
+                | TOk _ => TBail
+                | TBail => TBail
+                | TPanic => TPanic
+                end = TOk (m, b)) by (rewrite Ee in *; exact Ht).
+  clear Ht. destruct (typed_top o entries _) as [[sm sc]| |] eqn:Etop; try discriminate.
   destruct sm as [m0|]; [|discriminate]. destruct sc as [[nz tcols]|]; [|discriminate].
   injection Ht' as -> <-.
-  destruct (typed_top_spec _ _ _ _ Etop) as (Hs & Hb & Hm & Hc & Hin1 & Hin2). cbn [ts_m ts_cols] in *.
+  destruct (typed_top_spec _ _ _ _ Etop) as (Hs & Hb & Hm & Hc & Hin1 & Hin2 & Hin3). cbn [ts_m ts_cols] in *.
   destruct (last_val k_m entries) as [vm|] eqn:Evm; [|discriminate].
   destruct Hm as (_ & Hvm & _).
   destruct (last_val k_columns entries) as [vc|] eqn:Evc; [|discriminate].
-  destruct Hc as (_ & Hvc & _).
+  destruct Hc as (_ & c1 & Hvc & Hc1). injection Hc1 as <-.
   (* the columns value *)
   unfold typed_columns in Hvc. destruct vc as [| | | | | | | |centries|]; try discriminate.
   destruct centries as [|c0 crest] eqn:Ece; [discriminate|]. rewrite <- Ece in *.
   assert (Hvc' : match typed_cols o centries None [] with
-                 | Some (Some n, (_ :: _) as cols) => if n <=? 0 then None else Some (n, cols)
-                 | _ => None
-                 end = Some (nz, tcols)) by (rewrite Ece in *; exact Hvc).
-  clear Hvc. destruct (typed_cols o centries None []) as [[[n'|] tcs]|] eqn:Etc; try discriminate.
+                 | TOk (Some n, (_ :: _) as cols) => if n <=? 0 then TBail else TOk (n, cols)
+                 | TOk _ => TBail
+                 | TBail => TBail
+                 | TPanic => TPanic
+                 end = TOk (nz, tcols)) by (rewrite Ece in *; exact Hvc).
+  clear Hvc. destruct (typed_cols o centries None []) as [[[n'|] tcs]| |] eqn:Etc; try discriminate.
   destruct tcs as [|tc0 tcr] eqn:Etcs; [discriminate|]. rewrite <- Etcs in *.
-  assert (Hvc'' : (if n' <=? 0 then None else Some (n', tcs)) = Some (nz, tcols))
+  assert (Hvc'' : (if n' <=? 0 then TBail else TOk (n', tcs)) = TOk (nz, tcols))
     by (rewrite Etcs in *; exact Hvc').
   clear Hvc'. destruct (n' <=? 0) eqn:Epos; [discriminate|]. injection Hvc'' as -> ->.
   assert (Htne : tcols <> []) by (rewrite Etcs; discriminate).
   pose proof (last_val_in _ _ _ Evc) as Hinc.
-  (* guard facts for the columns map *)
-  assert (Hdup : cols_dup_later_nonarray [] centries = false).
-  { cbn [sig_dup] in Hgd. pose proof (existsb_false_in _ _ _ Hgd Hinc) as H. cbn in H. exact H. }
-  assert (Hskip : cols_skip_undecodable o centries = false).
-  { cbn [sig_skip] in Hgs. pose proof (existsb_false_in _ _ _ Hgs Hinc) as H. cbn in H. exact H. }
-  destruct (cols_bridge o centries nz tcols Etc Hdup Hskip Htne) as (cm & Hcm & Hndcm & Hrel).
+  destruct (cols_bridge o centries nz tcols Etc Htne) as (cm & Hcm & Hndcm & Hrel).
   (* every top-level value decodes *)
   assert (Hok : forallb (fun kv => lib_ok o (snd kv)) entries = true).
   { apply forallb_forall. intros [k v] Hin. cbn [snd].
@@ -1160,10 +1136,8 @@ Proof.
       destruct (typed_measurement_generic o _ _ E) as (g & Hgd' & _). unfold lib_ok. now rewrite Hgd'. }
     destruct (bytes_eqb_spec s k_columns) as [->|Hnc].
     { pose proof (Hin2 _ Hin) as E. injection E as <-. unfold lib_ok. now rewrite Hcm. }
-    cbn [sig_skip] in Hgs. pose proof (existsb_false_in _ _ _ Hgs Hin) as H. cbn beta iota in H.
-    rewrite (bytes_eqb_neq _ _ Hnc) in H. unfold is_known_key in H.
-    rewrite (bytes_eqb_neq _ _ Hnm), (bytes_eqb_neq _ _ Hnc), (bytes_eqb_neq _ _ Hnb) in H.
-    cbn in H. now apply negb_false_iff in H. }
+    apply (Hin3 _ _ Hin). unfold is_known_key.
+    now rewrite (bytes_eqb_neq _ _ Hnm), (bytes_eqb_neq _ _ Hnc), (bytes_eqb_neq _ _ Hnb). }
   destruct (smap_ok o entries [] Hs Hok) as [gm Hgm].
   pose proof (smap_lookup _ _ _ _ Hs Hgm) as Hlk.
   assert (Hdec : lib_decode o (MMap entries) = LOk (GMap gm)).
@@ -1226,25 +1200,117 @@ Proof.
 Qed.
 
 (* ------------------------------------------------------------------------------------ *)
-(* fall-back and acceptance                                                               *)
+(* fall-back, panics and acceptance                                                       *)
 
-Lemma fallback_total o now a : typed o now a = None -> decode_with_typed o now a = generic o now a.
+Lemma fallback_total o now a : typed o now a = TBail -> decode_with_typed o now a = generic o now a.
 Proof. unfold decode_with_typed. now intros ->. Qed.
 
-Lemma accept_guarded o now_t now_g a :
-  guard o a = true ->
-  (typed o now_t a <> None ->
-   accepted (decode_with_typed o now_t a) = true /\ accepted (generic o now_g a) = true) /\
-  (typed o now_t a = None -> decode_with_typed o now_t a = generic o now_t a).
+Lemma smap_ok_inv o entries : forall acc m,
+  lib_decode_smap o entries acc = LOk m -> forall k v, In (k, v) entries -> lib_ok o v = true.
 Proof.
-  intros Hg. split; [|apply fallback_total].
-  intros Hne. destruct (typed o now_t a) as [[m b]|] eqn:Et; [|congruence]. split.
-  - unfold decode_with_typed. rewrite Et. reflexivity.
-  - destruct (equiv_guarded o now_t now_g a m b Et Hg) as (b' & -> & _). reflexivity.
+  induction entries as [|[k0 v0] r IH]; intros acc m H k v Hin; [destruct Hin|].
+  cbn [lib_decode_smap] in H. destruct (string_key k0); cbn [lbind] in H; try discriminate.
+  destruct (lib_decode o v0) eqn:Ev; cbn [lbind] in H; try discriminate.
+  destruct Hin as [Hin|Hin]; [injection Hin as <- <-; unfold lib_ok; now rewrite Ev|eapply IH; eassumption].
+Qed.
+
+Lemma map_bad_value o s0 v0 r0 k v :
+  In (k, v) ((MStr s0, v0) :: r0) -> lib_ok o v = false -> lib_ok o (MMap ((MStr s0, v0) :: r0)) = false.
+Proof.
+  intros Hin Hv. unfold lib_ok at 1. rewrite lib_decode_smap_str.
+  destruct (lib_decode_smap o _ []) eqn:E; cbn [lbind]; try reflexivity.
+  rewrite (smap_ok_inv _ _ _ _ E _ _ Hin) in Hv. discriminate.
+Qed.
+
+Lemma typed_cols_panic o entries : forall expected acc,
+  typed_cols o entries expected acc = TPanic ->
+  exists s0 v0 r0 k v, entries = (MStr s0, v0) :: r0 /\ In (k, v) entries /\ lib_ok o v = false.
+Proof.
+  induction entries as [|[k0 v0] r IH]; intros expected acc H; [discriminate|].
+  destruct k0; try discriminate. exists s, v0, r.
+  assert (Hrec : forall e a, typed_cols o r e a = TPanic ->
+                 exists k v, In (k, v) ((MStr s, v0) :: r) /\ lib_ok o v = false).
+  { intros e a Hp. destruct (IH _ _ Hp) as (_ & _ & _ & k & v & _ & Hin & Hv). exists k, v. split; [now right|exact Hv]. }
+  assert (Hnon : match lookupb s acc with
+                 | Some _ => TBail
+                 | None => discard o v0 (typed_cols o r expected acc)
+                 end = TPanic ->
+                 exists k v, In (k, v) ((MStr s, v0) :: r) /\ lib_ok o v = false).
+  { destruct (lookupb s acc); [discriminate|]. unfold discard.
+    destruct (lib_decode o v0) eqn:Ev; try discriminate.
+    - apply Hrec.
+    - intros _. exists (MStr s), v0. split; [now left|]. unfold lib_ok. now rewrite Ev. }
+  destruct v0; try (destruct (Hnon H) as (kk & vv & Hin & Hv); exists kk, vv; auto).
+  cbn [typed_cols] in H.
+  destruct (_ || _); [discriminate|].
+  destruct (match expected with None => true | Some e => _ end); [|discriminate].
+  destruct (lookupb s acc); [discriminate|].
+  destruct (if bytes_eqb s k_time then _ else _); [|discriminate].
+  destruct (Hrec _ _ H) as (k & v & Hin & Hv). exists k, v. auto.
+Qed.
+
+Lemma typed_columns_panic o v : typed_columns o v = TPanic -> lib_ok o v = false.
+Proof.
+  unfold typed_columns. destruct v; try discriminate. destruct l as [|e r] eqn:El; [discriminate|].
+  rewrite <- El. destruct (typed_cols o l None []) as [[[n|] [|? ?]]| |] eqn:E; try discriminate.
+  - destruct (n <=? 0); discriminate.
+  - intros _. destruct (typed_cols_panic _ _ _ _ E) as (s0 & v0 & r0 & k & v & -> & Hin & Hv).
+    eapply map_bad_value; eassumption.
+Qed.
+
+Lemma typed_top_panic o entries : forall st,
+  typed_top o entries st = TPanic ->
+  exists s0 v0 r0 k v, entries = (MStr s0, v0) :: r0 /\ In (k, v) entries /\ lib_ok o v = false.
+Proof.
+  induction entries as [|[k0 v0] r IH]; intros st H; [discriminate|].
+  destruct k0; try discriminate. exists s, v0, r.
+  assert (Hrec : forall st1, typed_top o r st1 = TPanic ->
+                 exists k v, In (k, v) ((MStr s, v0) :: r) /\ lib_ok o v = false).
+  { intros st1 Hp. destruct (IH _ Hp) as (_ & _ & _ & k & v & _ & Hin & Hv). exists k, v. split; [now right|exact Hv]. }
+  cbn [typed_top] in H.
+  destruct (bytes_eqb s k_batch); [discriminate|].
+  destruct (bytes_eqb s k_m).
+  - destruct (ts_m st); [discriminate|]. destruct (typed_measurement v0); [|discriminate].
+    destruct (Hrec _ H) as (k & v & Hin & Hv). exists k, v. auto.
+  - destruct (bytes_eqb s k_columns).
+    + destruct (ts_cols st); [discriminate|]. destruct (typed_columns o v0) eqn:Ec; try discriminate.
+      * destruct (Hrec _ H) as (k & v & Hin & Hv). exists k, v. auto.
+      * exists (MStr s), v0. split; [reflexivity|]. split; [now left|now apply typed_columns_panic].
+    + unfold discard in H. destruct (lib_decode o v0) eqn:Ev; try discriminate.
+      * destruct (Hrec _ H) as (k & v & Hin & Hv). exists k, v. auto.
+      * exists (MStr s), v0. split; [reflexivity|]. split; [now left|]. unfold lib_ok. now rewrite Ev.
+Qed.
+
+(* when the typed path panics, the generic path cannot decode the document either *)
+Lemma typed_panic_generic o now_t now_g a :
+  typed o now_t a = TPanic -> accepted (generic o now_g a) = false.
+Proof.
+  intros H. destruct a; try discriminate. destruct l as [|e r] eqn:El; [discriminate|]. rewrite <- El in *.
+  assert (H' : typed_top o l {| ts_m := None; ts_cols := None |} = TPanic).
+  { rewrite El in *. cbn [typed] in H.
+    destruct (typed_top o (e :: r) _) as [[[?|] [[? ?]|]]| |]; try discriminate. reflexivity. }
+  destruct (typed_top_panic _ _ _ H') as (s0 & v0 & r0 & k & v & -> & Hin & Hv).
+  pose proof (map_bad_value o _ _ _ _ _ Hin Hv) as Hbad.
+  unfold generic. unfold lib_ok in Hbad. destruct (lib_decode o _); [discriminate|reflexivity|reflexivity].
+Qed.
+
+Lemma accept_iff o now_t now_g a :
+  (forall r, typed o now_t a = TOk r ->
+     accepted (decode_with_typed o now_t a) = true /\ accepted (generic o now_g a) = true) /\
+  (typed o now_t a = TBail -> decode_with_typed o now_t a = generic o now_t a) /\
+  (typed o now_t a = TPanic ->
+     accepted (decode_with_typed o now_t a) = false /\ accepted (generic o now_g a) = false).
+Proof.
+  split; [|split; [apply fallback_total|]].
+  - intros [m b] Et. split.
+    + unfold decode_with_typed. rewrite Et. reflexivity.
+    + destruct (equiv o now_t now_g a m b Et) as (b' & -> & _). reflexivity.
+  - intros Et. split; [unfold decode_with_typed; now rewrite Et|].
+    eapply typed_panic_generic; eassumption.
 Qed.
 
 (* ------------------------------------------------------------------------------------ *)
-(* the two ways the current code violates the unguarded property                          *)
+(* regression witnesses: the inputs on which the code before commit 1ff6fb4 differed       *)
 
 Definition w_cpu : ast := MStr [99%N; 112%N; 117%N].     (* "cpu" *)
 Definition w_a : bytes := [97%N].                         (* "a" *)
@@ -1267,28 +1333,14 @@ Definition witness_skip : ast :=
         (MStr k_columns, MMap [(MStr k_time, MArr [MInt KU32 1700000000]); (MStr w_a, MArr [MInt KFix 1])]);
         (MStr [120%N], MExt 5 [97%N; 98%N])].
 
-Lemma dup_refuted o now_t now_g :
-  sig_dup witness_dup = true /\ sig_skip o witness_dup = false /\
-  exists m b, typed o now_t witness_dup = Some (m, b) /\
-    lookupb w_a (b_cols b) <> None /\
-    exists b', generic o now_g witness_dup = OOk [ICol m (Some b')] /\
-               lookupb w_a (b_cols b') = None /\
-               ~ same_batch (payload_has_time witness_dup) b b'.
-Proof.
-  split; [reflexivity|]. split; [reflexivity|].
-  eexists. eexists. split; [vm_compute; reflexivity|]. split; [vm_compute; discriminate|].
-  eexists. split; [vm_compute; reflexivity|]. split; [reflexivity|].
-  intros (_ & _ & H). specialize (H w_a). cbn in H. destruct H as [_ H]. specialize (H eq_refl). discriminate.
-Qed.
+(* {..., x: {nil: 2}}: the library panics; now in both modes *)
+Definition witness_panic : ast :=
+  MMap [(MStr k_m, w_cpu);
+        (MStr k_columns, MMap [(MStr k_time, MArr [MInt KU32 1700000000]); (MStr w_a, MArr [MInt KFix 1])]);
+        (MStr [120%N], MMap [(MNil, MInt KFix 2)])].
 
-Lemma dup_reject_refuted o now_t now_g :
-  sig_dup witness_dup_reject = true /\
-  accepted (decode_with_typed o now_t witness_dup_reject) = true /\
-  generic o now_g witness_dup_reject = OErr.
-Proof. repeat split. Qed.
-
-Lemma skip_refuted o now_t now_g :
-  sig_dup witness_skip = false /\ sig_skip o witness_skip = true /\
-  accepted (decode_with_typed o now_t witness_skip) = true /\
-  generic o now_g witness_skip = OErr.
+Lemma old_witnesses_fall_back o now :
+  typed o now witness_dup = TBail /\ typed o now witness_dup_reject = TBail /\
+  typed o now witness_skip = TBail /\ typed o now witness_panic = TPanic /\
+  generic o now witness_panic = OPanic.
 Proof. repeat split. Qed.
